@@ -97,6 +97,37 @@ def run(ctx):
             else:
                 ctx.fail('C19.1', f, s, 'a path returns a blockshape whose components were never checked to be powers of two '
                          '>= 4', key_extra='pow2')
+    # the first component may be 1 only through the 2D entry: a 3D conversion with blockshape (1, n, m) writes a file
+    # that every reader takes for a 2D line
+    for f in cores:
+        ones = [c for a in ast.walk(f.node) if isinstance(a, ast.Assert) for c in ast.walk(a.test)
+                if isinstance(c, ast.Compare) and len(c.ops) == 1 and isinstance(c.ops[0], ast.Eq) and
+                {U(c.left), U(c.comparators[0])} == {'blockshape[0]', '1'}]
+        for c in ones:
+            # is the disjunct conjoined with a flag parameter of the function?
+            q = parent(c)
+            flag = None
+            while q is not None and not isinstance(q, ast.Assert):
+                if isinstance(q, ast.BoolOp) and isinstance(q.op, ast.And):
+                    for v in q.values:
+                        if isinstance(v, ast.Name) and v.id in f.params:
+                            flag = v.id
+                q = parent(q)
+            if flag is None:
+                ctx.fail('C19.1', f, c, 'the 3D resolver accepts a first blockshape component of 1 unconditionally: a 3D cube '
+                         'converted with (1, n, m) or with a free first component that resolves to 1 is written as a file every '
+                         'reader takes for a 2D line (neither rejected nor faithful)', key_extra='first1')
+                continue
+            passers = [e for e in G.callers(f) if flag in e.binding and not (
+                isinstance(e.binding[flag], ast.Constant) and e.binding[flag].value is False)]
+            bad = [e for e in passers if '2d' not in e.caller.name.lower()]
+            if bad:
+                ctx.fail('C19.1', bad[0].caller, bad[0].call, 'the 2D allowance `%s` of the resolver is switched on from %s' % (
+                    flag, bad[0].caller.qualname), key_extra='first1')
+            elif f.defaults.get(flag) is not None and isinstance(f.defaults[flag], ast.Constant) and f.defaults[flag].value is False:
+                ctx.ok('C19.1', f, c, 'a first component of 1 is accepted only under `%s`, set by the 2D entry alone' % flag)
+            else:
+                ctx.fail('C19.1', f, c, 'the 2D allowance `%s` does not default to False' % flag, key_extra='first1')
     # 2D entry enforces blockshape[0] == 1
     for f in entry:
         if '2d' in f.name:
